@@ -544,9 +544,13 @@ def build_desc(rng, c, content, symtab):
         order = (['p_type', 'p_offset', 'p_vaddr', 'p_paddr', 'p_filesz', 'p_memsz', 'p_flags', 'p_align'] if cls == 32 else
                  ['p_type', 'p_flags', 'p_offset', 'p_vaddr', 'p_paddr', 'p_filesz', 'p_memsz', 'p_align'])
         segs.append(R(**{k: f[k] for k in order}))
+    # the OS/ABI byte selects per-ABI tables in the struct factory (Solaris dynamic tags today): version sections must be
+    # found and decoded under every ABI (a seeded Solaris section-type table shadowed SHT_GNU_verdef under EI_OSABI = 6)
+    solaris = rng.random() < 0.2
+    osabi = 6 if solaris else rng.choice([0, 0, 0, 3, 9, 97])
     desc = {
-        'cls': cls, 'le': le, 'mclass': mclass_of(c['machine']), 'solaris': False, 'core': False,
-        'ehdr': R(EI_VERSION=1, EI_OSABI=0, EI_ABIVERSION=0, e_type=c['e_type'], e_machine=c['machine'], e_version=1,
+        'cls': cls, 'le': le, 'mclass': mclass_of(c['machine']), 'solaris': solaris, 'core': False,
+        'ehdr': R(EI_VERSION=1, EI_OSABI=osabi, EI_ABIVERSION=0, e_type=c['e_type'], e_machine=c['machine'], e_version=1,
                   e_entry=X(), e_flags=rnd_uint(rng, 32), e_ehsize=ehsize),
         'shoff': shoff, 'phoff': phoff, 'shentsize': shentsize, 'phentsize': phentsize,
         'sections': [{'name': hx(t['name']), 'nameOff': noff[t['name']],
